@@ -1030,6 +1030,7 @@ class LogixDriver(CIPDriver):
                 parsed_tag["request_id"],
                 self._cfg["use_instance_ids"],
             )
+            request.build_message()  # the size estimate below needs the assembled message
 
             return_size = _tag_return_size(parsed_tag) + len(request.message)
             if return_size > self.connection_size:
